@@ -289,7 +289,7 @@ fn delays_for(profile: DelayProfile, n: usize, j: u64, step: u64, rng: &mut Rng,
 /// stats: [jitter_delay, gap_stretch, simultaneous, reordered, merged_streams, dense_streams]
 pub fn gen_stream(desc: &ArrDesc, horizon: u64, max_events: usize, rng: &mut Rng, stats: &mut [u64; 6], force_dense: bool) -> Stream {
     match desc {
-        ArrDesc::Never => Stream::Leaf(vec![]),
+        ArrDesc::Never | ArrDesc::Poisson(..) => Stream::Leaf(vec![]),
         ArrDesc::Periodic(t) => {
             let phase = if force_dense { 0 } else { rng.below(*t) };
             let mut v = Vec::new();
@@ -403,7 +403,7 @@ pub fn gen_stream(desc: &ArrDesc, horizon: u64, max_events: usize, rng: &mut Rng
 /// Is `stream` a legal history of the process documented for `desc`?
 pub fn stream_admissible(desc: &ArrDesc, stream: &Stream) -> Result<(), String> {
     match (desc, stream) {
-        (ArrDesc::Never, Stream::Leaf(v)) => {
+        (ArrDesc::Never, Stream::Leaf(v)) | (ArrDesc::Poisson(..), Stream::Leaf(v)) => {
             if v.is_empty() {
                 Ok(())
             } else {
@@ -635,6 +635,7 @@ pub fn c10_item(sh: &StreamShared, k: u64, acc: &mut Acc, note: &dyn Fn(&str)) {
         ArrDesc::Rc(_) => acc.counters.inc("model.rc"),
         ArrDesc::Never => acc.counters.inc("model.never"),
         ArrDesc::Extrap(_) => acc.counters.inc("model.extrapolating_curve"),
+        ArrDesc::Poisson(..) => {}
     }
     if caching {
         acc.counters.inc("models_with_caching_component");
